@@ -233,6 +233,23 @@ META = {
         level_text="Measured behaviour of the real effects on ~10^5 (quick) / 10^6 (thorough) generated settings against closed forms and independent references; exploration, the parameter space is continuous.",
         level_note="Trusts the harness reference implementations and measurement procedure (tolerances stated in the rule).",
     ),
+    "C15": dict(
+        level="exploration",
+        technique="runtime monitoring: metamorphic relations between renderings of the real spatial mixer (same-distance, radial sweep, mirror, rigid motion, listener removal), plus distance-mapped parameters measured through a real VolumeControl effect against the documented Mapping law",
+        design_ref="DESIGN.md §3 C15",
+        rule=("Random scenes (listener position/orientation incl. identity and axis-aligned, emitter coincident / inside min / between / beyond max distance, min 0..10, range 0.5..100, all easings or attenuation disabled, strength {0,0.3,0.5,0.75,1}, mono or unbalanced stereo DC source) rendered through AudioManager + spatial track. "
+              "Judged: strength 0 leaves the stereo balance unchanged (1e-5); gain exactly 1 inside min and exactly 0 beyond max; gain equal (2e-4) for another direction and listener orientation at the same distance; non-increasing (1e-7) along a 12-point radial sweep; ear gains after removing the attenuation within [1-strength, 1] (1e-3); "
+              "left >= right for emitters on the listener's left (and conversely); mirroring the emitter through the median plane swaps the ears (5e-4); a random rotation+translation of listener and emitter together leaves the output unchanged (2e-3); a dropped or never-existing listener gives exact silence from the next callback; "
+              "a VolumeControl driven by Value::FromListenerDistance outputs amplitude(map(distance)) (2e-4) on the spatial track itself, on a non-spatial descendant (parent's distance) and on a nested spatial track (its own distance); during position/orientation tweens output stays finite and afterwards equals a static scene at the final poses. "
+              "0 allocations in callbacks. A case is distinct when (distance zone, strength, easing on/off, source balance, identity orientation | history kind, variant) is new."),
+        domain="coordinates within +-50 (+ distances up to 3 x max), min < max distance; one listener per scene",
+        assumptions=["relations are those stated in the property; the panning law itself is not modelled, so a different law that keeps all relations passes",
+                     "tolerances absorb f32 rounding of glam quaternion products for coordinates up to ~10^2"],
+        quick=[rel(20)],
+        thorough=[rel(600), dict(engine="native-dev", shards=16, budget=120)],
+        level_text="Relations between ~10^5 (quick) / 10^7 (thorough) renderings of the real spatial mixer; exploration of a continuous geometry space.",
+        level_note="Trusts the harness geometry (glam) used to construct mirrored and rigidly moved scenes.",
+    ),
     "C19": dict(
         level="exploration",
         technique="runtime monitoring: exhaustive f32 sweeps + dense boundary-biased sampling of the public conversion functions against independent f64 oracles",
